@@ -616,7 +616,8 @@ Lemma truncate_spec_lemma : forall loc maxlen suffix r, (0 < maxlen)%Z ->
      (exists head tail, p = head ++ tail /\ is_prefix_of head v /\ valid_utf8 tail /\
                         Forall (fun b => 128 <= b) tail /\ (head = [] \/ exists h b, head = h ++ [b] /\ b <= 127)) /\
      (* on valid UTF-8 the result is a prefix of v cut at a rune boundary, at most 3 bytes short *)
-     (valid_utf8 v -> is_prefix_of p v /\ valid_utf8 p /\ (maxlen - 3 <= Z.of_nat (length p))%Z)).
+     (valid_utf8 v -> is_prefix_of p v /\ valid_utf8 p /\ (maxlen - 3 <= Z.of_nat (length p))%Z /\
+        forall q, is_prefix_of q v -> valid_utf8 q -> (Z.of_nat (length q) <= maxlen)%Z -> (length q <= length p)%nat)).
 Proof.
   intros loc maxlen suffix r Hm v. split.
   - intros Hle. unfold run_truncate. fold (getf r loc). fold v.
@@ -630,10 +631,13 @@ Proof.
       rewrite <- (firstn_skipn (Z.to_nat maxlen) v) at 1. rewrite Hx, <- app_assoc. reflexivity.
     + intros Hv. destruct (valid_cut v Hv (Z.to_nat maxlen)) as (w & rr & Hcut & Hw & Hrr & Hrl).
       rewrite Hcut in Hp. rewrite (clean_valid_incomplete w rr Hw Hrr) in Hp. inversion Hp; subst p.
-      split; [|split; [assumption|]].
+      split; [|split; [assumption|split]].
       * exists (rr ++ skipn (Z.to_nat maxlen) v). rewrite <- (firstn_skipn (Z.to_nat maxlen) v) at 1.
         rewrite Hcut, <- app_assoc. reflexivity.
       * apply (f_equal (@length N)) in Hcut. rewrite firstn_length, app_length in Hcut. lia.
+      * intros q [x Hx] Hq Hql. apply (longest_valid_prefix w rr q Hw Hrr); [|assumption].
+        rewrite <- Hcut. exists (firstn (Z.to_nat maxlen - length q) x).
+        rewrite Hx, firstn_app. rewrite firstn_all2 by lia. reflexivity.
 Qed.
 
 (* ---------- unescape ---------- *)
